@@ -700,7 +700,7 @@ def run(ctx):
         explore(ctx, h, drv, "main", 6, 60, 70, 60, grow=(20000, 40000), mfrac=0.5)
     else:
         explore(ctx, h, drv, "main", 20, 120, 250, 200, mfrac=0.03, nsynth=600)
-    if ctx.proof_broken or ctx.corr_broken:
+    if (ctx.proof_broken or ctx.corr_broken) and not ctx.violations:
         ctx.log("obligation or correspondence broken: widening the search for a failing input")
         for x in (ctx.proof_broken + ctx.corr_broken)[:3]:
             ctx.log("  broken:", x[:500])
